@@ -2,66 +2,98 @@
 (* Abstract, quiescence-stepped specification of the srv.Cleanup service over  *)
 (* an unlimited pubsub.Queue (property C11).  Jobs are harness-supplied        *)
 (* fun.Worker functions (gate mode: they return when the driver says so) with  *)
-(* a scripted outcome.  Driver steps: add(j) = go queue.Add(job j); burst(js)  *)
-(* = Add every job of js and call Close() at once, without waiting for         *)
-(* quiescence in between (an Add racing the shutdown); start = go c.Start(ctx);*)
+(* a scripted outcome.  Driver steps: add(j) = go queue.Add(job j); burst(s)   *)
+(* = Add the jobs of the sequence s, in that order, and call Close() at once,  *)
+(* without quiescence in between (Adds racing the shutdown); start = go        *)
+(* c.Start(ctx);                                                               *)
 (* cancel (possibly before start); close; finish(j); wait(w) = go c.Wait().    *)
 (*                                                                            *)
 (* Obligations (DESIGN 5.0: accepted = Add returned nil before the shutdown    *)
 (* event in the global order): no accepted job runs before the shutdown event; *)
-(* once the service has been started and shut down every accepted job has been *)
-(* invoked exactly once - concurrently, so a job that fails, panics or does    *)
-(* not return never prevents the others; c.Wait() stays blocked until every    *)
-(* accepted job returned and its result satisfies errors.Is for every job      *)
-(* failure.                                                                    *)
+(* once the service has been started and shut down the accepted jobs are       *)
+(* invoked exactly once each, in the order of acceptance, as many at a time as *)
+(* the shutdown pool has workers (one per CPU, implementations.go:218: nw = 0  *)
+(* stands for "at least as many CPUs as jobs", nw > 0 for a machine with nw    *)
+(* CPUs - the harness pins itself to that many): at quiescence                 *)
+(* min(accepted, returned + workers) jobs have been invoked, so a job that     *)
+(* fails or panics - whatever its error is - never prevents the others, and    *)
+(* one that does not return only occupies its worker; c.Wait() stays blocked   *)
+(* until every accepted job returned and its result satisfies errors.Is for    *)
+(* every job failure.                                                          *)
+(*                                                                            *)
+(* Outcome vocabulary (Kinds): ok, error (a plain error), panic, and the       *)
+(* errors a worker group treats as "stop" signals when a processor returns     *)
+(* them (fun.WorkerGroupConf.CanContinueOnError, opts.go:81-111): eof (wraps   *)
+(* io.EOF), canceled (wraps context.Canceled), deadline (wraps                 *)
+(* context.DeadlineExceeded).  For cleanup functions they are failures like    *)
+(* any other.                                                                  *)
+(*                                                                            *)
+(* Jobs are interchangeable (a job is identified by its place in the order of  *)
+(* acceptance, which the schedule chooses), so only outcome assignments that   *)
+(* are sorted along the job names are explored.                                *)
 (***************************************************************************)
 EXTENDS Integers, Sequences, FiniteSets, TLC, Json
 
-CONSTANTS Jobs, Waiters, Kinds, Depth
+CONSTANTS Jobs, Waiters, Kinds, Workers, Depth
 
-VARIABLES ucfg, acc, fin, started, ended, st, hist
-vars == <<ucfg, acc, fin, started, ended, st, hist>>
-view == <<ucfg, acc, fin, started, ended, st>>
+VARIABLES ucfg, nw, acc, fin, started, ended, st, hist
+vars == <<ucfg, nw, acc, fin, started, ended, st, hist>>
+\* with enough workers for all jobs the order of acceptance has no influence on what follows
+view == <<ucfg, nw, IF nw = 0 THEN {acc[i] : i \in 1..Len(acc)} ELSE {<<i, acc[i]>> : i \in 1..Len(acc)}, fin, started, ended, st>>
+
+KindOrd == <<"ok", "error", "panic", "eof", "canceled", "deadline">>
+KIdx(k) == CHOOSE i \in 1..Len(KindOrd) : KindOrd[i] = k
+NameOrd == <<"j1", "j2", "j3", "j4", "j5">>
+NIdx(n) == CHOOSE i \in 1..Len(NameOrd) : NameOrd[i] = n
+Sorted(u) == \A x, y \in Jobs : NIdx(x) < NIdx(y) => KIdx(u[x].kind) <= KIdx(u[y].kind)
+ErrKinds == {"error", "eof", "canceled", "deadline"}
+Range(s) == {s[i] : i \in 1..Len(s)}
+Min(a, b) == IF a < b THEN a ELSE b
 
 AddId(j) == "add_" \o j
 OpIds == {AddId(j) : j \in Jobs} \cup Waiters \cup {"cs", "burst"}
 
-Init == /\ ucfg \in [Jobs -> [kind : Kinds]]
-        /\ acc = {} /\ fin = {} /\ started = FALSE /\ ended = FALSE
+Init == /\ ucfg \in {u \in [Jobs -> [kind : Kinds]] : Sorted(u)}
+        /\ nw \in Workers
+        /\ acc = <<>> /\ fin = {} /\ started = FALSE /\ ended = FALSE
         /\ st = [o \in OpIds |-> "idle"] /\ hist = <<>>
 
 R(k) == [k |-> k, must |-> {}, pan |-> "any", nil |-> "any"]
-Fail(j) == IF ucfg[j].kind = "error" THEN {"e:" \o j} ELSE IF ucfg[j].kind = "panic" THEN {"p:" \o j} ELSE {}
-Agg(ac) == [k |-> "agg", must |-> UNION {Fail(j) : j \in ac},
-            pan |-> IF \E j \in ac : ucfg[j].kind = "panic" THEN "t" ELSE "any", nil |-> "any"]
+Fail(j) == IF ucfg[j].kind \in ErrKinds THEN {"e:" \o j} ELSE IF ucfg[j].kind = "panic" THEN {"p:" \o j} ELSE {}
+Agg(ac) == [k |-> "agg", must |-> UNION {Fail(j) : j \in Range(ac)},
+            pan |-> IF \E j \in Range(ac) : ucfg[j].kind = "panic" THEN "t" ELSE "any", nil |-> "any"]
+\* number of accepted jobs invoked at quiescence (a prefix of ac), and the jobs in flight
+W == IF nw = 0 THEN Cardinality(Jobs) ELSE nw
+NS(ac, fi, sd, en) == IF sd /\ en THEN Min(Len(ac), Cardinality(fi) + W) ELSE 0
+InFlight == {acc[i] : i \in 1..NS(acc, fin, started, ended)} \ fin
 
 Commit(op, id, arg, ac, fi, sd, en, st2, res2) ==
   LET shut  == sd /\ en                       \* the cleanup phase runs
-      alld  == shut /\ ac \subseteq fi
+      alld  == shut /\ Range(ac) \subseteq fi
+      ns    == NS(ac, fi, sd, en)
       wdone == {w \in Waiters : st2[w] = "pend" /\ alld}
       st3   == [o \in OpIds |-> IF o \in wdone THEN "done" ELSE st2[o]]
       Allow(o) == IF o \in wdone THEN {Agg(ac)} ELSE IF st3[o] = "pend" THEN {R("blocked")} ELSE res2[o]
       listed == {o \in OpIds : st3[o] = "pend" \/ (st3[o] = "done" /\ st[o] # "done")}
-  IN /\ acc' = ac /\ fin' = fi /\ started' = sd /\ ended' = en /\ st' = st3 /\ ucfg' = ucfg
+  IN /\ acc' = ac /\ fin' = fi /\ started' = sd /\ ended' = en /\ st' = st3 /\ ucfg' = ucfg /\ nw' = nw
      /\ hist' = Append(hist, [op |-> op, id |-> id, arg |-> arg,
                   exp |-> [ops |-> {[id |-> o, allow |-> Allow(o)] : o \in listed},
-                           cnt |-> {[id |-> j, allow |-> IF shut /\ j \in ac THEN {1} ELSE {0}] : j \in Jobs},
+                           cnt |-> {[id |-> j, allow |-> IF \E i \in 1..ns : ac[i] = j THEN {1} ELSE {0}] : j \in Jobs},
                            started |-> {}, seen |-> {}]])
 
 NoRes == [o \in OpIds |-> {}]
 
 \* an Add before the shutdown event is accepted (also before the service is started)
-AddOp(j) == /\ j \notin acc /\ ~ended
-            /\ Commit("add", AddId(j), j, acc \cup {j}, fin, started, ended,
+AddOp(j) == /\ j \notin Range(acc) /\ ~ended
+            /\ Commit("add", AddId(j), j, Append(acc, j), fin, started, ended,
                       [st EXCEPT ![AddId(j)] = "done"], [NoRes EXCEPT ![AddId(j)] = {R("nil")}])
 
-\* Adds racing the shutdown: every Add returns nil before Close() is called
-Names(js) == IF js = {"j1"} THEN "j1" ELSE IF js = {"j2"} THEN "j2" ELSE IF js = {"j3"} THEN "j3"
-             ELSE IF js = {"j1", "j2"} THEN "j1,j2" ELSE IF js = {"j1", "j3"} THEN "j1,j3"
-             ELSE IF js = {"j2", "j3"} THEN "j2,j3" ELSE "j1,j2,j3"
-BurstOp(js) == /\ started /\ ~ended /\ js # {} /\ js \cap acc = {} /\ st["burst"] = "idle"
-               /\ Commit("burst", "burst", Names(js), acc \cup js, fin, started, TRUE,
-                         [st EXCEPT !["burst"] = "done"], [NoRes EXCEPT !["burst"] = {R("nil")}])
+\* Adds racing the shutdown: every Add returns nil, in the order of the sequence s, before Close() is called
+Seqs == {s \in UNION {[1..n -> Jobs] : n \in 1..Cardinality(Jobs)} : \A i, k \in DOMAIN s : i # k => s[i] # s[k]}
+Names(s) == LET F[i \in 1..Len(s)] == IF i = 1 THEN s[1] ELSE F[i - 1] \o "," \o s[i] IN F[Len(s)]
+BurstOp(s) == /\ started /\ ~ended /\ Range(s) \cap Range(acc) = {} /\ st["burst"] = "idle"
+              /\ Commit("burst", "burst", Names(s), acc \o s, fin, started, TRUE,
+                        [st EXCEPT !["burst"] = "done"], [NoRes EXCEPT !["burst"] = {R("nil")}])
 
 StartOp == /\ ~started
            /\ Commit("start", "cs", "none", acc, fin, TRUE, ended, [st EXCEPT !["cs"] = "done"], [NoRes EXCEPT !["cs"] = {R("nil")}])
@@ -69,23 +101,23 @@ StartOp == /\ ~started
 CancelOp == /\ ~ended /\ Commit("cancel", "none", "none", acc, fin, started, TRUE, st, NoRes)
 CloseOp  == /\ ~ended /\ started /\ Commit("close", "none", "none", acc, fin, started, TRUE, st, NoRes)
 
-FinishOp(j) == /\ started /\ ended /\ j \in acc \ fin
+FinishOp(j) == /\ started /\ ended /\ j \in InFlight
                /\ Commit("finish", "none", j, acc, fin \cup {j}, started, ended, st, NoRes)
 
 WaitOp(w) == /\ started /\ st[w] = "idle"
              /\ Commit("wait", w, "none", acc, fin, started, ended, [st EXCEPT ![w] = "pend"], NoRes)
 
 Step == \/ \E j \in Jobs : AddOp(j) \/ FinishOp(j)
-        \/ \E js \in SUBSET Jobs : BurstOp(js)
+        \/ \E s \in Seqs : BurstOp(s)
         \/ \E w \in Waiters : WaitOp(w)
         \/ StartOp \/ CancelOp \/ CloseOp
 Next == Len(hist) < Depth /\ Step
 Spec == Init /\ [][Next]_vars
 
-Inv == fin \subseteq acc /\ (\A w \in Waiters : st[w] = "done" => acc \subseteq fin)
+Inv == fin \subseteq Range(acc) /\ (\A w \in Waiters : st[w] = "done" => Range(acc) \subseteq fin)
 
 Units == {[name |-> j, kind |-> ucfg[j].kind, mode |-> "gate", pre |-> "new"] : j \in Jobs}
-Beh(h) == [cfg |-> [comp |-> "cleanup", units |-> Units, workers |-> 0, cont |-> FALSE], steps |-> h]
+Beh(h) == [cfg |-> [comp |-> "cleanup", units |-> Units, workers |-> nw, cont |-> FALSE], steps |-> h]
 EmitAll  == (Len(hist) < Depth /\ ENABLED Step) \/ PrintT(<<"BEH", ToJson(Beh(hist))>>)
 EmitEdge == PrintT(<<"BEH", ToJson(Beh(hist'))>>)
 =============================================================================
